@@ -1,10 +1,10 @@
 package main
 
 import (
-	"runtime"
 	"errors"
 	"fmt"
 	"os"
+	"runtime"
 	"strings"
 	"syscall"
 	"time"
@@ -20,12 +20,12 @@ import (
 func init() { props["C07"] = runC07 }
 
 type faultCase struct {
-	name    string
-	prep    func(r *forkexec.Runner, tmp string)
-	loc     forkexec.ErrorLocation
-	index   int
-	errno   syscall.Errno
-	anyErr  bool // errno not pinned
+	name     string
+	prep     func(r *forkexec.Runner, tmp string)
+	loc      forkexec.ErrorLocation
+	index    int
+	errno    syscall.Errno
+	anyErr   bool // errno not pinned
 	nonChild bool // the error is not a ChildError (sync callback's own error)
 }
 
@@ -64,7 +64,7 @@ func noChildrenLeft() bool {
 
 func runC07(res *Result, d *Driver, tier string, seed uint64) {
 	res.Rule = "part A: for option-set numbers n, a fault (errno 13) injected at every step k>=1 of the regenerated child (Go-lite, abstract kernel): the child must not exec, must exit with the errno and must have reported (errno, expected location, index) — or, for the documented ignorable steps, continue; " +
-		"part B: real forkexec.Runner.Start with failures induced by real inputs at each reachable step (closed fd in Files, bad mount source at index k, mount target under a file, pivot into a missing dir, missing workdir, rlimit soft>hard at index k, invalid filter, missing / non-executable / ENOEXEC executable, failing sync callback, unwritable id map) x configurations (sync callback, late cgroup unshare, user namespace): ChildError fields, marker file absent, no child left; and the callback is invoked before the target runs with the pid of that very process; " +
+		"part B: real forkexec.Runner.Start with failures induced by real inputs at each reachable step (closed fd in Files, bad mount source at index k, mount target under a file, pivot into a missing dir, missing workdir, rlimit soft>hard at index k, invalid filter, missing / non-executable / ENOEXEC executable, failing sync callback, unwritable id map) x configurations (sync callback, late cgroup unshare, user namespace, descriptor layouts that put the error channel 0..2 numbers above the scratch start of the shuffle with more relocations than that, an already-ended uncollected other child of the caller): ChildError fields, marker file absent, no child left; and the callback is invoked before the target runs with the pid of that very process; " +
 		"part C: container Execve with SyncFunc before/after exec (pid designates the process in the host's pid namespace). non-trivial = every case; distinct = (option set) / (fault, configuration)."
 	rng := NewRng(seed, "C07", 1)
 	baselineChildren = childPids() // the model driver
@@ -174,6 +174,23 @@ func runC07(res *Result, d *Driver, tier string, seed uint64) {
 				if withSync {
 					r.SyncFunc = func(int) error { called = true; return nil }
 				}
+				// descriptor layouts in which the error channel (the socket pair Start creates) lies d numbers above the
+				// scratch start of the descriptor shuffle, with more relocations than d: the channel must survive the shuffle
+				layout := -1
+				cleanupLayout := func() {}
+				if !withPtrace && rng.Chance(50) {
+					layout = rng.Intn(3)
+					r.Files, cleanupLayout = pipeAbove(layout, devnull)
+				}
+				// another child of the caller that has already ended and is not yet collected: the failed launch must reap
+				// its own child, and this one's status must stay collectible
+				bystander := 0
+				if !withPtrace && rng.Chance(50) {
+					if p, e := os.StartProcess("/bin/true", []string{"true"}, &os.ProcAttr{}); e == nil {
+						bystander = p.Pid
+						time.Sleep(5 * time.Millisecond)
+					}
+				}
 				c.prep(r, tmp)
 				var pid int
 				var err error
@@ -203,12 +220,20 @@ func runC07(res *Result, d *Driver, tier string, seed uint64) {
 						syscall.Wait4(pid, &ws, 0, nil)
 					}
 				}
+				cleanupLayout()
 				pf.Close()
 				devnull.Close()
-				key := fmt.Sprintf("%s sync=%v ucas=%v ptrace=%v", c.name, withSync, ucas, withPtrace)
+				key := fmt.Sprintf("%s sync=%v ucas=%v ptrace=%v error-channel-above-list=%d uncollected-bystander=%v", c.name, withSync, ucas, withPtrace, layout, bystander != 0)
 				res.Case(key, true, "real-fault")
 				res.Traces++
 				var bad []string
+				if bystander != 0 {
+					var ws syscall.WaitStatus
+					wp, werr := syscall.Wait4(bystander, &ws, 0, nil)
+					if wp != bystander || werr != nil || !ws.Exited() || ws.ExitStatus() != 0 {
+						bad = append(bad, fmt.Sprintf("the caller's other child (pid %d, exited 0 before the launch) can no longer be collected: wait4 = %d %v %v", bystander, wp, werr, ws))
+					}
+				}
 				var ce forkexec.ChildError
 				switch {
 				case err == nil:
@@ -366,4 +391,31 @@ func runC07(res *Result, d *Driver, tier string, seed uint64) {
 		}
 	}
 	res.Sample("real fault: bad-mount-source-index1 sync=true ucas=false => ChildError{mount, index 1, ENOENT}, marker absent, ECHILD")
+}
+
+// pipeAbove fills the free descriptor numbers of this process so that the next two descriptors it creates (the socket
+// pair of Start) get the numbers T and T+1, and returns a Files list whose scratch start is T+1-d with three entries
+// that need relocation. cleanup closes the fillers.
+func pipeAbove(d int, devnull *os.File) ([]uintptr, func()) {
+	open := openFdSet()
+	T := 12
+	for fd := range open {
+		if fd >= T {
+			T = fd + 1
+		}
+	}
+	var fill []int
+	for n := 3; n < T; n++ {
+		if !open[n] {
+			if syscall.Dup3(int(devnull.Fd()), n, syscall.O_CLOEXEC) == nil {
+				fill = append(fill, n)
+			}
+		}
+	}
+	files := []uintptr{uintptr(T - d), 0, 1, 2}
+	return files, func() {
+		for _, n := range fill {
+			syscall.Close(n)
+		}
+	}
 }
